@@ -59,10 +59,29 @@ fn(H1 + ".handle", params={"event": _ev.IO_EVENTS}, task="reader", model_opts={"
    # the servers stop feeding data once they have seen EOF (both _read_data loops)
    requires=[("h11.handle.pre.no-data-after-eof", "implies(isinstance(event, RawData) and isinstance(self.connection, h11.Connection), not self.connection.recv_closed or len(event.data) == 0)")],
    raises={"H2CProtocolRequiredError": None, "H2ProtocolAssumedError": None},
-   props=("C04", "C13"))
+   ensures=[
+       # C01.h11.feed: what was read is what the parser gets, once (segmentation is the parser's business)
+       ("C01.h11.feed", "implies(isinstance(event, RawData) and isinstance(old(self.connection), h11.Connection), n_emitted('h11_in') == 1 and emitted('h11_in')[0] == event.data)", "C01"),
+   ],
+   props=("C04", "C13", "C01"))
 
+STREAM_HANDLE = "(c[0] == 'HTTPStream.handle' or c[0] == 'WSStream.handle')"
 fn(H1 + "._handle_events", params={}, task="reader", model_opts={"h11_server_headers_ok": True},
    raises={"H2CProtocolRequiredError": None, "H2ProtocolAssumedError": None},
+   loops={0: {"locals": {"event": "opaque"},
+     "iter_ensures": [
+       # C04: malformed input (h11 RemoteProtocolError): the connection is closed, and any response
+       # head sent for it carries the status h11 hints at
+       ("C04.h11.malformed-closes", "implies(n_emitted('h11_err') == 1, last_is('sent', Closed))", "C04,C06"),
+       ("C04.h11.malformed-status", "implies(n_emitted('h11_err') == 1, trace_all('h11', 'x', implies(isinstance(x, h11.Response), x.status_code == emitted('h11_err')[0])))", "C04"),
+     ],
+     "body_ensures": [
+       # C01.h11.events: every body event of the parser reaches the stream as the matching stream
+       # event with the same bytes; the end of the message as exactly one EndBody
+       ("C01.h11.data", "implies(isinstance(event, h11.Data), trace_any('calls', 'c', " + STREAM_HANDLE + " and isinstance(c[2], Body) and c[2].stream_id == 1 and c[2].data == event.data))", "C01"),
+       ("C01.h11.end", "implies(isinstance(event, h11.EndOfMessage), trace_any('calls', 'c', " + STREAM_HANDLE + " and isinstance(c[2], EndBody) and c[2].stream_id == 1))", "C01"),
+       ("C01.h11.request-once", "implies(isinstance(event, h11.Request), count_calls('H11Protocol._create_stream') == 1 and same(call_args('H11Protocol._create_stream')[1], event))", "C01,C06"),
+   ]}},
    props=("C04", "C06", "C07", "C01"))
 
 REQ = "obj h11:Request"
@@ -104,6 +123,15 @@ fn(H1 + "._create_stream", params={"request": REQ}, task="reader",
        # an HTTP stream otherwise
        ("C13.h11.ws-iff-opening", "iff(trace_any('calls', 'c', c[0] == 'WSStream.handle'), " + WS_OPENING + ")", "C13"),
        ("C13.h11.http-otherwise", "iff(trace_any('calls', 'c', c[0] == 'HTTPStream.handle'), not " + WS_OPENING + ")", "C13"),
+       # C01.h11.request: one stream object per request, handed one Request event that reports the
+       # method (upper-cased), target, version and -- unless raw headers are configured -- the header
+       # list as the parser produced them, on stream 1, with the connection's state
+       ("C01.h11.request", "count_calls('Stream.handle') == 1 and isinstance(call_args('Stream.handle')[1], Request) and call_args('Stream.handle')[1].stream_id == 1 "
+        "and call_args('Stream.handle')[1].method == request.method.decode('ascii').upper() and call_args('Stream.handle')[1].raw_path == request.target "
+        "and call_args('Stream.handle')[1].http_version == request.http_version.decode() and same(call_args('Stream.handle')[1].state, self.connection_state)", "C01"),
+       ("C01.h11.request.headers", "implies(not self.config.h11_pass_raw_headers, call_args('Stream.handle')[1].headers == request.headers)", "C01"),
+       ("C01.h11.request.wiring", "same(call_args('Stream.handle')[0].app, self.app) and same(call_args('Stream.handle')[0].client, self.client) and same(call_args('Stream.handle')[0].server, self.server) "
+        "and call_args('Stream.handle')[0].stream_id == 1 and call_args('Stream.handle')[0].scheme == (('wss' if self.ssl else 'ws') if isinstance(call_args('Stream.handle')[0], WSStream) else ('https' if self.ssl else 'http'))", "C01"),
        # C06.close-hdr / C18: the request is counted exactly once, before the application can run
        ("C06.count", "self.keep_alive_requests == old(self.keep_alive_requests) + 1", "C06,C18"),
    ],
@@ -124,11 +152,17 @@ fn(H1 + ".stream_send", params={"event": _ev.STREAM_EVENTS}, task="app",
    raises={"h11.LocalProtocolError": None},
    ensures=[
        # C06.close-hdr: "connection: close" is announced exactly when the per-connection maximum is reached
-       ("C02.h11.body", "implies(isinstance(event, Body), trace_all('h11', 'x', isinstance(x, h11.Data) and x.data == event.data))", "C02"),
-       ("C02.h11.end", "implies(isinstance(event, EndBody), trace_all('h11', 'x', isinstance(x, h11.EndOfMessage)))", "C02"),
+       # (one h11 event per stream event -- unless h11 refuses it because the client side is in ERROR,
+       # which _send_h11_event swallows: nothing can be sent on such a connection any more)
+       ("C02.h11.body", "implies(isinstance(event, Body), (n_emitted('h11') == 1 or (isinstance(self.connection, h11.Connection) and self.connection.their_state is h11.ERROR)) and trace_all('h11', 'x', isinstance(x, h11.Data) and x.data == event.data))", "C02"),
+       ("C02.h11.end", "implies(isinstance(event, EndBody), (n_emitted('h11') == 1 or (isinstance(self.connection, h11.Connection) and self.connection.their_state is h11.ERROR)) and trace_all('h11', 'x', isinstance(x, h11.EndOfMessage)))", "C02"),
        ("C02.h11.raw", "trace_all('sent', 'x', isinstance(x, (RawData, Closed, Updated)))", "C02"),
        # C02.h11.headers: the application's headers come first, in order
-       ("C02.h11.headers-first", "implies(isinstance(event, Response), trace_all('h11', 'x', starts_with_seq(x.headers, event.headers)))", "C02"),
+       ("C02.h11.headers-first", "implies(isinstance(event, Response), (n_emitted('h11') == 1 or (isinstance(self.connection, h11.Connection) and self.connection.their_state is h11.ERROR)) and trace_all('h11', 'x', starts_with_seq(x.headers, event.headers)))", "C02"),
+       # ... and a 1xx stays a 1xx, a final status a final response (one response head per Response event)
+       ("C02.h11.kind", "implies(isinstance(event, Response), trace_all('h11', 'x', isinstance(x, h11.Response) == (event.status_code >= 200) and isinstance(x, h11.InformationalResponse) == (event.status_code < 200)))", "C02"),
+       # WebSocket frames (Data events) go to the transport unchanged
+       ("C10.h11.data-raw", "implies(isinstance(event, Data), n_emitted('sent') == 1 and isinstance(emitted('sent')[0], RawData) and emitted('sent')[0].data == event.data)", "C10,C02"),
        # C06.close-hdr / C18.ka.h11: close is announced on the response that reaches the maximum
        ("C18.ka.h11", "implies(isinstance(event, Response) and event.status_code >= 200 and old(self.keep_alive_requests) >= self.config.keep_alive_max_requests, "
         "trace_all('h11', 'x', x.headers[-1] == (b'connection', b'close')))", "C18,C06"),
